@@ -275,7 +275,18 @@ fn const_json<'tcx>(tcx: TyCtxt<'tcx>, env: ty::TypingEnv<'tcx>, c: &Const<'tcx>
                         items.push(("indirect", jbool(true)));
                     }
                 }
-                other => items.push(("val", jstr(&format!("{:?}", other)))),
+                other => {
+                    // a pointer to a static item: name it, and say whether it can be written through (static mut / interior mutability)
+                    if let mir::ConstValue::Scalar(mir::interpret::Scalar::Ptr(ptr, _)) = other {
+                        if let rustc_middle::mir::interpret::GlobalAlloc::Static(did) = tcx.global_alloc(ptr.provenance.alloc_id()) {
+                            items.push(("static", jstr(&def_key(tcx, did))));
+                            let sty = tcx.type_of(did).instantiate_identity().skip_norm_wip();
+                            let writable = tcx.is_mutable_static(did) || !sty.is_freeze(tcx, env);
+                            items.push(("static_writable", jbool(writable)));
+                        }
+                    }
+                    items.push(("val", jstr(&format!("{:?}", other))))
+                }
             }
         }
         Err(_) => items.push(("uneval", jstr(&format!("{:?}", c)))),
